@@ -209,9 +209,11 @@ func (s *State) EnabledKeys() (keys [][]byte, junk bool) {
 // dc is set when the configuration lies outside the property's quantifier.
 func (s *State) AttOK(msg, att []byte) (ok bool, dc bool) {
 	keys, junk := s.EnabledKeys()
-	if junk || s.Threshold < 1 || int(s.Threshold) > len(s.Attesters) {
+	if junk || s.Threshold < 1 {
 		dc = true
 	}
+	// a threshold above the number of enabled attesters is a reachable configuration (genesis, bootstrap): no
+	// attestation can carry that many distinct enabled signers, so nothing is validly attested (ExactAccept says no)
 	return ref.ExactAccept(msg, att, keys, s.Threshold), dc
 }
 
